@@ -94,11 +94,26 @@ func seqs(alpha []string, n int) [][]string {
 	return out
 }
 
+// listClass: the structure of a list for the coverage keys — per entry its kind and canonical base, so that spellings
+// of one rule fall into one class ("N:name.example W:name.example" = exact host then wildcard of the same domain).
 func listClass(l []string) string {
 	if len(l) == 0 {
 		return "none"
 	}
-	return "L[" + strings.Join(l, " ") + "]"
+	parts := make([]string, len(l))
+	for i, e := range l {
+		switch r := parseRule(e); r.kind {
+		case ruleAny:
+			parts[i] = "*"
+		case ruleName:
+			parts[i] = "N:" + r.name
+		case ruleSub:
+			parts[i] = "W:" + r.name
+		default:
+			parts[i] = fmt.Sprintf("C:%s/%d", fmtAddr(r.base), r.bits)
+		}
+	}
+	return "L[" + strings.Join(parts, " ") + "]"
 }
 
 // listPolicies: the policies of part (L), in a fixed order.
